@@ -15,7 +15,7 @@ CONSTANTS Svcs,       \* service names
           Intfs,      \* interfaces a query may name
           Resp,       \* interfaces that have an ARP and an NDP responder
           Acts,       \* which actions this configuration takes: subset of {"Set","Del","Grat","Arp","Ndp"}
-          ArpOps, ArpDsts, ArpTargets, NdpKinds, NdpTargets,
+          ArpOps, ArpDsts, ArpThas, ArpTargets, NdpKinds, NdpTargets,
           MaxOps      \* bound on the length of a behaviour (0 = unbounded)
 
 VARIABLES st, ann, act, nops
@@ -55,10 +55,10 @@ DoGrat(adv) ==
   /\ UNCHANGED <<st, ann>>
   /\ act' = [op |-> "Grat", adv |-> adv, exp |-> GratRes(st, adv, Resp)]
 
-DoArp(o, d, t, r) ==
+DoArp(o, d, h, t, r) ==
   /\ "Arp" \in Acts
   /\ UNCHANGED <<st, ann>>
-  /\ act' = [op |-> "Arp", aop |-> o, dst |-> d, target |-> t, intf |-> r, exp |-> ArpRes(st, o, d, t, r)]
+  /\ act' = [op |-> "Arp", aop |-> o, dst |-> d, tha |-> h, target |-> t, intf |-> r, exp |-> ArpRes(st, o, d, h, t, r)]
 
 DoNdp(k, t, r) ==
   /\ "Ndp" \in Acts
@@ -69,7 +69,7 @@ Next == /\ Bound /\ Tick
         /\ \/ \E s \in Svcs, adv \in Advs : DoSet(s, adv)
            \/ \E s \in Svcs : DoDel(s)
            \/ \E adv \in Advs : DoGrat(adv)
-           \/ \E o \in ArpOps, d \in ArpDsts, t \in ArpTargets, r \in Resp : DoArp(o, d, t, r)
+           \/ \E o \in ArpOps, d \in ArpDsts, h \in ArpThas, t \in ArpTargets, r \in Resp : DoArp(o, d, h, t, r)
            \/ \E k \in NdpKinds, t \in NdpTargets, r \in Resp : DoNdp(k, t, r)
 
 Spec == Init /\ [][Next]_vars
@@ -83,7 +83,7 @@ InvNoDupIp == NoDupIp(st)
 InvRefcntExact == RefcntExact(st, ann, Ips)
 InvAnswerIff == AnswerIff(st, ann, Ips \cup ArpTargets \cup NdpTargets, Intfs)
 InvGratuitousOnlyHeld == GratuitousOnlyHeld(st, ann, Advs, Resp)
-InvArpFilter == ArpFilter(st, ann, ArpOps, ArpDsts, ArpTargets, Resp)
+InvArpFilter == ArpFilter(st, ann, ArpOps, ArpDsts, ArpThas, ArpTargets, Resp)
 InvGroupsExact == GroupsExact(st, ann, Ips)
 (* after the last holder is withdrawn the address is neither answered nor   *)
 (* announced; withdrawing one of several holders does not interrupt answers *)
